@@ -76,6 +76,8 @@ def gen_fund(r: random.Random, profile: str = "scripted") -> Dict[str, Any]:
             ops.append({"k": "query", "times": [r.randrange(10 ** 6) for _ in range(3)]})
         if r.random() < 0.25:
             ops.append(gen_ahead(r))
+        if r.random() < 0.06:
+            ops.append({"k": "dup_add", "m": r.randrange(n), "start_at": r.choice([0, 0, 1, 5])})
     late = []
     if r.random() < 0.25:
         for _ in range(r.randint(1, 2)):
